@@ -368,6 +368,7 @@ class _SimPool(concurrent.futures.Executor):
     pickles = False
 
     def __init__(self, max_workers: typing.Optional[int] = None, **_):
+        self._broken = False
         self._max = max_workers or 4
         self._work = SimQueue(pickled=False)
         self._workers: list = []
@@ -377,6 +378,10 @@ class _SimPool(concurrent.futures.Executor):
 
     def submit(self, fn, /, *args, **kwargs):
         k = kmod.current()
+        if self._broken:  # like the real pool after a result that could not be unpickled in the parent
+            from concurrent.futures.process import BrokenProcessPool  # pylint: disable=import-outside-toplevel
+
+            raise BrokenProcessPool('A child process terminated abruptly, the process pool is not usable anymore')
         future = concurrent.futures.Future()
         if not k:  # no simulation: run inline
             try:
@@ -421,7 +426,12 @@ class _SimPool(concurrent.futures.Executor):
                     try:
                         err = pickle_roundtrip(err)
                     except Exception as perr:  # pylint: disable=broad-except
-                        err = RuntimeError(f'unpicklable exception {type(err).__name__}: {perr}')
+                        # the real parent fails to unpickle the worker's message: the whole pool is declared broken
+                        from concurrent.futures.process import BrokenProcessPool  # pylint: disable=import-outside-toplevel
+
+                        self._broken = True
+                        k.probe('process-pool-broken')
+                        err = BrokenProcessPool(f'unpicklable exception {type(err).__name__}: {perr}')
                 k.yield_('pool.done')
                 future.set_exception(err)
             else:
